@@ -19,119 +19,24 @@
 (*        was created, and is kept while it propagates                     *)
 (*   C06  only ConstructError subclasses leave the root                    *)
 (***************************************************************************)
-EXTENDS Props, Json, IOUtils, TLCExt
+EXTENDS Machine, Json, IOUtils, TLCExt
 
 Input == JsonDeserialize(IOEnv.TRACE_FILE)
 Cases == Input.cases
 Progs == Input.progs
 Done == {Input.done[i] : i \in 1..Len(Input.done)}
 
-VARIABLES cid,      \* the call being replayed
-          pc,       \* number of events consumed
-          stack,    \* open nodes, innermost last: [k, nm, op, p, kids]
-          fails     \* sequence of [clause, at] found so far
+VARIABLES cid       \* the call being replayed
 vars == <<cid, pc, stack, fails>>
-
-Kid(ev, pin) == [k |-> ev.k, ok |-> ev.ok, v |-> ev.v, err |-> ev.err, pin |-> pin, pout |-> ev.p, path |-> ev.path]
-Frame(ev) == [k |-> ev.k, nm |-> ev.nm, op |-> ev.op, p |-> ev.p, kids |-> <<>>]
-
-OpPrefix(op) == CASE op = "parse" -> "(parsing)" [] op = "build" -> "(building)" [] OTHER -> "(sizeof)"
-RECURSIVE NamesOn(_, _)
-NamesOn(stk, i) == IF i > Len(stk) THEN <<>> ELSE (IF stk[i].nm # "" THEN <<stk[i].nm>> ELSE <<>>) \o NamesOn(stk, i + 1)
-\* the path an error created at the top of `stk` must carry (the call's operation names the prefix)
-PathAt(stk, rootop) == <<OpPrefix(rootop)>> \o NamesOn(stk, 1)
-
-\* classes whose member sees a different stream content or other coordinates than the root stream
-NotRootCoords == {"Transformed", "Restreamed", "ProcessXor", "ProcessRotateLeft", "Compressed", "RestreamData",
-                  "Prefixed", "FixedSized", "Select", "Compiled"}
-AbsCoords(stk, op) == \A i \in 1..Len(stk) : stk[i].k \notin (IF op = "parse" THEN NotRootCoords \ {"Prefixed", "FixedSized", "Select"} ELSE NotRootCoords)
-
-OkKids(f) == SelectSeq(f.kids, LAMBDA x : x.ok)
-
-\* clauses violated by leaving frame f (already holding its children) with event ev; stk = stack including f
-LeaveChecks(cs, stk, f, ev) ==
-    LET nk == Len(f.kids)
-        lastk == IF nk > 0 THEN f.kids[nk] ELSE Kid(ev, 0)
-        rootop == cs.op
-    IN
-    \* ---- C09
-    (IF f.k = "Peek" /\ f.op = "parse" /\ ev.ok /\ ev.p # f.p THEN <<"C09.peek-restores">> ELSE <<>>)
-    \o (IF f.k = "Pointer" /\ f.op \in {"parse", "build"} /\ ev.ok /\ ev.p # f.p THEN <<"C09.pointer-restores">> ELSE <<>>)
-    \o (IF f.k = "Select" /\ f.op = "parse" /\ (\E i \in 1..nk : f.kids[i].pin # f.p) THEN <<"C09.alternative-start">> ELSE <<>>)
-    \o (IF f.k = "Select" /\ f.op = "parse" /\ ev.ok /\
-           ~(nk > 0 /\ lastk.ok /\ ev.p = lastk.pout /\ ValEq(ev.v, lastk.v) /\ \A i \in 1..(nk - 1) : ~f.kids[i].ok)
-        THEN <<"C09.alternative-result">> ELSE <<>>)
-    \o (IF f.k = "GreedyRange" /\ f.op = "parse" /\
-           ~(\A i \in 1..nk : f.kids[i].pin = (IF i = 1 THEN f.p ELSE f.kids[i - 1].pout) /\ (i < nk => f.kids[i].ok))
-        THEN <<"C09.element-chain">> ELSE <<>>)
-    \o (IF f.k = "GreedyRange" /\ f.op = "parse" /\ ev.ok /\ nk > 0 /\ ~lastk.ok /\ lastk.err # "StopFieldError" /\
-           ev.p # (IF nk = 1 THEN f.p ELSE f.kids[nk - 1].pout)
-        THEN <<"C09.failed-element-rewound">> ELSE <<>>)
-    \o (IF f.k = "GreedyRange" /\ f.op = "parse" /\ ev.ok /\ ev.v.t = "list" /\ Len(ev.v.xs) = Len(OkKids(f)) /\
-           ~(\A i \in 1..Len(ev.v.xs) : ValEq(ev.v.xs[i], OkKids(f)[i].v))
-        THEN <<"C09.element-values">> ELSE <<>>)
-    \o (IF f.k = "Union" /\ f.op = "parse" /\ (\E i \in 1..nk : f.kids[i].pin # f.p) THEN <<"C09.union-same-start">> ELSE <<>>)
-    \o (IF f.k = "Union" /\ f.op = "parse" /\ ev.ok /\ ~(ev.p = f.p \/ \E i \in 1..nk : ev.p = f.kids[i].pout)
-        THEN <<"C09.union-end">> ELSE <<>>)
-    \* ---- C14
-    \o (IF f.k = "RawCopy" /\ f.op = "parse" /\ ev.ok /\ ev.v.t = "dict" /\ nk = 1 /\ lastk.ok THEN
-           (IF ~( DHas(ev.v, "offset1") /\ DHas(ev.v, "offset2") /\ DHas(ev.v, "length") /\ DHas(ev.v, "data") /\ DHas(ev.v, "value")
-                  /\ DGet(ev.v, "offset1") = VInt(f.p) /\ DGet(ev.v, "offset2") = VInt(lastk.pout)
-                  /\ DGet(ev.v, "length") = VInt(lastk.pout - f.p) /\ ValEq(DGet(ev.v, "value"), lastk.v)
-                  /\ ev.p = lastk.pout
-                  /\ DGet(ev.v, "data").t = "bytes" /\ Len(DGet(ev.v, "data").b) = lastk.pout - f.p
-                  /\ (AbsCoords(stk, "parse") /\ cs.op = "parse" /\ lastk.pout >= f.p /\ lastk.pout <= Len(cs.data)
-                        => DGet(ev.v, "data").b = SubSeq(cs.data, f.p + 1, lastk.pout)) )
-            THEN <<"C14.rawcopy-parse">> ELSE <<>>)
-        ELSE <<>>)
-    \o (IF f.k = "RawCopy" /\ f.op = "build" /\ ev.ok /\ ev.v.t = "dict" THEN
-           (IF ~( DHas(ev.v, "offset1") /\ DHas(ev.v, "offset2") /\ DHas(ev.v, "length") /\ DHas(ev.v, "data")
-                  /\ DGet(ev.v, "offset1") = VInt(f.p) /\ DGet(ev.v, "offset2") = VInt(ev.p)
-                  /\ DGet(ev.v, "length") = VInt(ev.p - f.p)
-                  /\ DGet(ev.v, "data").t = "bytes" /\ Len(DGet(ev.v, "data").b) = ev.p - f.p
-                  /\ (nk = 1 /\ lastk.ok => lastk.pout = ev.p /\ lastk.pin = f.p) )
-            THEN <<"C14.rawcopy-build">> ELSE <<>>)
-        ELSE <<>>)
-    \* ---- C18: created here (no failing last child, or a different error) -> the path of this stack;
-    \*           propagated from the failing last child -> unchanged
-    \o (IF ~ev.ok /\ IsConstructError(ev.err) /\ cs.op = f.op /\ ev.err \notin {"StopFieldError", "CancelParsing"} /\
-           ~(\E i \in 1..Len(stk) : stk[i].k = "Compiled") /\
-           ~( ev.path = PathAt(stk, rootop) \/ (nk > 0 /\ ~lastk.ok /\ ev.path = lastk.path) )
-        THEN <<"C18.path">> ELSE <<>>)
 
 Init == cid \in {i \in 1..Len(Cases) : Cases[i].id \notin Done} /\ pc = 0 /\ stack = <<>> /\ fails = <<>>
 
-Enter == LET cs == Cases[cid]  ev == cs.events[pc + 1] IN
-    /\ pc >= 0 /\ pc < Len(cs.events) /\ ev.e = "in"
-    /\ stack' = Append(stack, Frame(ev))
-    /\ pc' = pc + 1 /\ UNCHANGED <<cid, fails>>
-
-Leave == LET cs == Cases[cid]  ev == cs.events[pc + 1] IN
-    /\ pc >= 0 /\ pc < Len(cs.events) /\ ev.e = "out" /\ stack # <<>>
-    /\ LET f == stack[Len(stack)]
-           bad == LeaveChecks(cs, stack, f, ev)
-           rest == SubSeq(stack, 1, Len(stack) - 1)
-       IN /\ stack' = IF rest = <<>> THEN rest
-                      ELSE [rest EXCEPT ![Len(rest)].kids = Append(@, Kid(ev, f.p))]
-          /\ fails' = fails \o [i \in 1..Len(bad) |-> [clause |-> bad[i], at |-> pc + 1, node |-> f.k]]
-    /\ pc' = pc + 1 /\ UNCHANGED cid
-
-\* the call returns to the user
-RootChecks(cs) ==
-    (IF ~cs.res.ok /\ cs.res.err # "Watchdog" /\ ~IsConstructError(cs.res.err) THEN <<[clause |-> "C06.only-construct-errors", at |-> 0, node |-> cs.res.err]>> ELSE <<>>)
-    \o (IF cs.res.err = "Watchdog" THEN <<[clause |-> "C06.terminates", at |-> 0, node |-> "-"]>> ELSE <<>>)
-    \o (IF ~cs.res.ok /\ IsConstructError(cs.res.err) /\ Len(cs.events) > 0 /\ cs.events[Len(cs.events)].e = "out"
-           /\ ~cs.events[Len(cs.events)].ok /\ cs.res.path # cs.events[Len(cs.events)].path
-        THEN <<[clause |-> "C18.path-kept", at |-> 0, node |-> "-"]>> ELSE <<>>)
+Enter == EnterOn(Cases[cid]) /\ UNCHANGED cid
+Leave == LeaveOn(Cases[cid]) /\ UNCHANGED cid
 Finish == LET cs == Cases[cid] IN
-    /\ pc = Len(cs.events) /\ pc >= 0
-    /\ pc' = -1 /\ stack' = <<>> /\ UNCHANGED cid
-    /\ fails' = fails \o RootChecks(cs)
+    /\ ReturnOn(cs) /\ UNCHANGED cid
     /\ PrintT(ToJson([id |-> cs.id, st |-> IF fails' = <<>> THEN "ok" ELSE "fail", fails |-> fails', depth |-> Len(stack)]))
 
 Next == Enter \/ Leave \/ Finish
 Spec == Init /\ [][Next]_vars
-
-\* a well-bracketed recording: the stack is empty exactly when the call has returned normally
-Bracketed == pc = -1 => TRUE
 =============================================================================
